@@ -256,6 +256,15 @@ func visitInline(fw *formatWriter, source []byte, cursor *commonmark.Cursor) boo
 		return false
 	case commonmark.InfoStringKind, commonmark.LinkDestinationKind, commonmark.LinkLabelKind, commonmark.LinkTitleKind:
 		return false
+	case commonmark.IndentKind:
+		if cursor.ParentBlock().Kind().IsCode() {
+			// The rest of a tab whose first columns belong to the container:
+			// at the column it is written to, the tab itself would mean something else.
+			fw.s(strings.Repeat(" ", child.IndentWidth()))
+			return false
+		}
+		fw.b(spanSlice(source, child.Span()))
+		return false
 	default:
 		if !child.Span().IsValid() {
 			return false
@@ -392,7 +401,9 @@ func codeFenceLength(source []byte, block *commonmark.Block) int {
 			s := spanSlice(source, inl.Span())
 			for _, c := range s {
 				switch c {
-				case ' ':
+				case ' ', '\t':
+					// A tab is at least one column wide and, inside a container,
+					// can be narrower than the indentation of a code block.
 					if state == -1 {
 						indent++
 						if indent >= codeBlockIndentLimit {
